@@ -17,6 +17,8 @@ from pbt.ref import surface as ref
 PROPERTY = "C19"
 CLAUSES = []
 ASSUMPTIONS = [
+    "narrow integer records (int16 / int32 / int8 counts using the dtype's full range, gen.narrow_int) are records like any other: the "
+    "reference works on their exact values",
     "records: 3 <= n <= 412 samples in the random clauses, 413 .. 3e5 (thorough 2e6) in the mid-range enumerations (float "
     "ndarray, integer ndarray, list, views), |a| <= 1e9; dt in [1e-4, 1] or 2^-10..1; 1-5 travel times in the random clauses, "
     "6 .. 5000 in the mid-range enumerations, as scalar / list / tuple / ndarray; travel times of any length >= 0, including "
@@ -34,7 +36,7 @@ ASSUMPTIONS = [
     "reduction factors: both python scalars (float or int) or both ndarrays (float or integer dtype) of one factor per travel "
     "time; the quantifier ('scalar/array reductions') and the formula put no range on them: values in [0, 1] mostly, (1, 4] "
     "(amplification) in about a fifth and [-1, 0) in about a twentieth of the non-default cases "
-    "(lists and mixed scalar/array are not accepted by the code: `up_red[:, np.newaxis]` - reported, not checked)",
+    "as ndarrays, lists, tuples, or a sequence for one wave and a scalar for the other (fixed finding C19-F2)",
     "lengths: npts when trimmed (statement).  Untrimmed, no start: long enough for the delayed wave under either reading of the "
     "interpolation, n+floor(max 2tt/dt) or n+ceil(max 2tt/dt).  start without trim: the statement fixes nothing; any length "
     "from n to n + largest front padding + ceil(max 2tt/dt) + 1 is accepted and the content is compared on whatever length came back",
@@ -49,8 +51,7 @@ ASSUMPTIONS = [
     "whole-batch check at mid-range sizes evaluates the definition in double precision row by row and uses 3x these bounds with "
     "sum_{j<=k}(|up_j|+|down_j|) <= (|up_red|+2|down_red|)*sum_{j<=k}|a_j|",
     "mid-range enumerations: delays are whole or at least 0.01 samples away from a whole number (no 'ambiguous' rows there)",
-    "join_values_w_shifts / join_sig_w_time_shift: shifts >= 0 (np.pad), time shifts as ndarray (a list raises in the code - "
-    "reported, not checked); a time shift t moves by a whole number of samples within one sample of t/dt (floor or ceil; the "
+    "join_values_w_shifts / join_sig_w_time_shift: shifts >= 0 (np.pad), time shifts as ndarray / list / tuple (fixed finding C19-F1); a time shift t moves by a whole number of samples within one sample of t/dt (floor or ceil; the "
     "statement does not fix the convention); put_array_in_2d_array: integer shifts of any sign with |shift| <= n+3 in the random "
     "clause and up to 2n in the mid-range enumeration, list or ndarray, clip in {'none','start','end','both', None, omitted}",
     "purity of the arguments (record / reductions / values unchanged by a call) is property C05's claim and is not asserted "
@@ -146,6 +147,15 @@ def _cases(draw, options=False, laws=False):
     elif mode == "array":
         case["up"] = [draw(el) for _ in range(nt)]
         case["down"] = list(case["up"]) if draw(st.integers(0, 2)) == 0 else [draw(el) for _ in range(nt)]
+        # "float or array_like": ndarrays, lists, tuples and every mixture of an array / list with a scalar (fixed finding C19-F2)
+        case["red_form"] = _pick(draw, ["array", "array", "list", "tuple", "array+scalar", "scalar+array", "list+scalar", "scalar+list",
+                                        "array+list"])
+        if case["red_form"].startswith("scalar"):
+            case["up"] = [case["up"][0]] * nt
+        elif case["red_form"].endswith("scalar"):
+            case["down"] = [case["down"][0]] * nt
+    if not exact and draw(st.integers(0, 7)) == 0:
+        case["narrow"] = draw(st.sampled_from(["int16", "int32", "int8"]))   # raw counts, full range of the dtype (gen.narrow_int)
     if laws:
         case["nodal"], case["trim"], case["start"] = _pick(draw, list(itertools.product([True, False], repeat=3)))
     if options or laws:
@@ -224,6 +234,9 @@ class _Setup(object):
         a0 = _build(spec)
         self.arg = gen.as_container(spec, a0)
         self.a = np.array(self.arg, dtype=float)  # what the library sees
+        if case.get("narrow"):
+            self.arg, self.a = gen.narrow_int(a0, case["narrow"])
+            ctx.cls("narrow=" + case["narrow"])
         self.n = len(self.a)
         self.dt = case["dt"]
         self.tts = list(case["tts"]) if "tts" in case else [q * self.dt / 2.0 for q in case["q"]]
@@ -242,6 +255,9 @@ class _Setup(object):
             self.ur = [1.0] * self.nt
             self.dr = [1.0] * self.nt
         self.mode = mode
+        self.red_form = case.get("red_form", "array")
+        if mode == "array" and self.red_form != "array":
+            ctx.cls("red-form=" + self.red_form)
         self._red_kw = None
         self.stt = float(case.get("r", 0.0)) * self.dt
         self.stt_floor = _floor_cands(self.stt / self.dt)
@@ -322,7 +338,18 @@ class _Setup(object):
         dr = self.dr if dr is None else dr
         if self.mode == "array":
             dty = np.int64 if self.red_int else float
-            kw = {"up_red": np.array(ur, dtype=dty), "down_red": np.array(dr, dtype=dty)}
+            conv = int if self.red_int else float
+
+            def form(vals, how):
+                if how == "array":
+                    return np.array(vals, dtype=dty)
+                if how == "list":
+                    return [conv(x) for x in vals]
+                if how == "tuple":
+                    return tuple(conv(x) for x in vals)
+                return conv(vals[0])   # scalar side of a mixture (all its factors are equal)
+            fu, fd = (self.red_form.split("+") + [self.red_form])[:2] if own else ("array", "array")
+            kw = {"up_red": form(ur, fu), "down_red": form(dr, fd)}
         elif self.mode == "scalar":
             kw = {"up_red": int(ur[0]), "down_red": int(dr[0])} if self.red_int else {"up_red": ur[0], "down_red": dr[0]}
         else:
@@ -511,7 +538,8 @@ _OPTS = ["opt=%s%s%s" % (a, b, c) for a in "NA" for b in "Tt" for c in "Ss"]
                "otherwise the derived eps bounds; near-whole delays bracketed",
         require={"red=array": 0.30, "red=scalar": 0.15, "delay=frac": 0.30, "delay=int": 0.25, "delay=zero": 0.10, "antinodal": 0.25,
                  "nodal": 0.25, "delay=odd": 0.10, "delay=amb": 0.03, "delay>=2n": 0.08, "red>1": 0.08, "red<0": 0.02,
-                 "red-int": 0.04},
+                 "red-int": 0.04, "red-form=list": 0.02, "red-form=array+scalar": 0.02, "red-form=scalar+array": 0.02,
+                 "narrow=int16": 0.02},
         min_nontrivial=0.30)
 def definition(case, ctx):
     su = _Setup(case, ctx)
@@ -651,7 +679,7 @@ def _single_vs_batch(ctx, su, i, batches, tol_e, okw):
 
 # ---------------------------------------------------------------------------
 # mid-range sizes (DESIGN 8.5): records of 413 .. 3e5 samples (thorough 2e6), 6 .. 5000 travel times, products rows x samples of
-# 1e5 .. 1.5e7 (thorough 6e7).  Deterministic enumerations: sizes from gen.size_ladder / gen.product_pairs (one per logarithmic
+# 1e5 .. 1.5e7 (thorough 3e7).  Deterministic enumerations: sizes from gen.size_ladder / gen.product_pairs (one per logarithmic
 # bin, placed by a hash of VERIF_SEED, plus the integer literals mined from the source under test); every other parameter is a
 # hash of (VERIF_SEED, tag, index).  EVERY row of every result is compared with the definition evaluated in double precision
 # (ref.row64: slices and a blend, no interpolation routine) under the derived bounds; a hash-chosen sample of rows that always
@@ -751,6 +779,14 @@ def _mr_setup(c, ctx, asig=None, seed_xor=0, n=None):
                 down = up.copy()
         case["up"] = float(up[0]) if k == 1 and c["red"] == "scalar" else [float(x) for x in up]
         case["down"] = float(down[0]) if k == 1 and c["red"] == "scalar" else [float(x) for x in down]
+        if c["red"] == "array":
+            case["red_form"] = c.get("red_form", "array")
+            if case["red_form"].startswith("scalar"):
+                case["up"] = [case["up"][0]] * nt
+            elif case["red_form"].endswith("scalar"):
+                case["down"] = [case["down"][0]] * nt
+    if c.get("narrow") and not c.get("as"):
+        case["narrow"] = c["narrow"]
     if "r" in c:
         case["r"] = min(float(c["r"]), float(spec["n"] - 1))
         case["trim"], case["start"] = bool(c["trim"]), bool(c["start"])
@@ -882,7 +918,9 @@ def _mr_common(tag, i, n, nt):
          "env": _hpick(["up", "down", "hump"], tag, "env", i), "cyc": round(3 + 20 * _hu(tag, "cyc", i), 3),
          "nodal": _hu(tag, "nodal", i) < 0.5, "red": _hpick(["default", "scalar", "array", "array"], tag, "red", i),
          "red_int": _hu(tag, "ri", i) < 0.12, "tt_as": _hpick(["ndarray", "list", "tuple"], tag, "tta", i),
-         "as": _hpick(_MR_CONTAINERS, tag, "as", i), "drop_default": _hu(tag, "dd", i) < 0.5}
+         "as": _hpick(_MR_CONTAINERS, tag, "as", i), "drop_default": _hu(tag, "dd", i) < 0.5,
+         "red_form": _hpick(["array", "array", "list", "tuple", "array+scalar", "scalar+array", "list+scalar", "array+list"], tag, "rf", i),
+         "narrow": _hpick([None, None, None, None, "int16", "int32", "int8"], tag, "nw", i)}
     if c["as"] == "int":
         c["amp"] = 2
     if nt == 1 and _hu(tag, "sc", i) < 0.5:
@@ -928,7 +966,7 @@ def mid_range(c, ctx):
 
 def _prod_enum(tier, shard, nshards):
     quick = tier == "quick"
-    top = 1.5e7 if quick else 6e7
+    top = 1.5e7 if quick else 3e7   # 3e7 elements: ~1.5 GB of library temporaries per case, 16 shards run side by side
     pairs = list(gen.product_pairs(1e5, top, 12 if quick else 26, (6, 5000), (413, 300000 if quick else 1000000), "c19:prod"))
     # every octave of the number of rows on its own (cheap records), so that a window on len(travel_times) alone is entered
     for j, nt in enumerate(gen.size_ladder(6, 5000, 12 if quick else 28, "c19:nt")):
@@ -951,7 +989,7 @@ def _prod_enum(tier, shard, nshards):
 
 @enum_clause(CLAUSES, "mid-range-products", _prod_enum,
              rule="batches of 6 .. 5000 travel times on records of 413 .. 3e5 samples: products rows x samples laddered over 1e5 .. 1.5e7 "
-                  "(thorough 6e7) with a hash-chosen split (gen.product_pairs; mined literals aimed at), plus a ladder of the number "
+                  "(thorough 3e7) with a hash-chosen split (gen.product_pairs; mined literals aimed at), plus a ladder of the number "
                   "of rows alone on short records; options as in mid-range; above 4e6 elements one function per case",
              oracle="as mid-range: EVERY row against the double-precision definition; rows {first, last, -1|0|+1 mod 2^k for k=5..12, "
                     "hash-chosen others} also against the long-double reference and the single-travel-time call",
@@ -1047,6 +1085,7 @@ def _shift_cases(draw):
             "jshifts": draw(st.lists(st.integers(0, n + 3), min_size=1, max_size=5)),
             "jtype": _pick(draw, ["add", "sub", "sub", "default"]),
             "dt": draw(gen.dts(1e-3, 1.0)),
+            "tr_as": _pick(draw, ["ndarray", "list", "tuple"]),
             "tr": draw(st.lists(st.one_of(st.integers(0, n + 3).map(float),
                                           st.floats(0.0, n + 3.0, allow_nan=False, allow_subnormal=False)),
                                 min_size=1, max_size=4))}
@@ -1085,7 +1124,7 @@ def _ref_join(values, shifts, sub):
              "time shifts r*dt, r whole or fractional; non-trivial = non-zero values and a non-zero shift",
         oracle="reference model (double loop over rows and columns, column 0 = original position of values[0]); equality",
         require={"clip=none": 0.04, "clip=start": 0.04, "clip=end": 0.04, "clip=both": 0.04, "mixed-sign": 0.06,
-                 "all-neg": 0.05, "all-pos": 0.05, "jtype=sub": 0.12, "shift>=n": 0.10},
+                 "all-neg": 0.05, "all-pos": 0.05, "jtype=sub": 0.12, "shift>=n": 0.10, "times=list": 0.1, "times=tuple": 0.1},
         min_nontrivial=0.30)
 def shift_helpers(case, ctx):
     spec = case["vals"]
@@ -1134,10 +1173,12 @@ def shift_helpers(case, ctx):
         ctx.amb()
         ctx.cls("ambiguous")
     sig = ctx.lib(eqsig.Signal if len(js) % 2 else eqsig.AccSignal, arg, dt)
+    targ = {"ndarray": times, "list": [float(t) for t in times], "tuple": tuple(float(t) for t in times)}[case.get("tr_as", "ndarray")]
+    ctx.cls("times=" + case.get("tr_as", "ndarray"))   # array_like time shifts (fixed finding C19-F1)
     if jt == "default":
-        out = ctx.lib(ts.join_sig_w_time_shift, sig, times)
+        out = ctx.lib(ts.join_sig_w_time_shift, sig, targ)
     else:
-        out = ctx.lib(ts.join_sig_w_time_shift, sig, times, jtype=jt)
+        out = ctx.lib(ts.join_sig_w_time_shift, sig, targ, jtype=jt)
     ctx.check(out is not None, "join_sig_w_time_shift returned None")
     out = np.asarray(out)
     ok = False
@@ -1176,7 +1217,7 @@ def _validate_gather():
 
 def _helper_enum(tier, shard, nshards):
     quick = tier == "quick"
-    pairs = list(gen.product_pairs(1e5, 1.5e7 if quick else 6e7, 10 if quick else 22, (1, 5000), (47, 300000 if quick else 2000000), "c19:hp"))
+    pairs = list(gen.product_pairs(1e5, 1.5e7 if quick else 3e7, 10 if quick else 22, (1, 5000), (47, 300000 if quick else 2000000), "c19:hp"))
     for j, nr in enumerate(gen.size_ladder(6, 5000, 8 if quick else 20, "c19:hr")):
         pairs.append((int(nr), _hint(47, 2000, "hp", "n", j)))
     for j, n in enumerate(gen.size_ladder(47, 300000 if quick else 2000000, 10 if quick else 24, "c19:hn")):
@@ -1185,7 +1226,7 @@ def _helper_enum(tier, shard, nshards):
     for i, (nr, n) in enumerate(pairs):
         fn = _hpick(["put", "put", "join", "joinsig"], "hp", "fn", i)
         reach = _hpick([3, 400, max(1, n // 3), n + 3, 2 * n], "hp", "reach", i)
-        if nr * (n + 2 * reach) > (2.2e7 if quick else 8e7):
+        if nr * (n + 2 * reach) > (2.2e7 if quick else 4.5e7):
             reach = min(reach, 400)
         cases.append({"n": int(n), "nr": int(nr), "seed": _sd("hp", i), "fn": fn, "reach": int(reach),
                       "sign": _hpick(["any", "any", "neg", "pos"], "hp", "sign", i),
@@ -1200,7 +1241,7 @@ def _helper_enum(tier, shard, nshards):
 
 @enum_clause(CLAUSES, "mid-range-helpers", _helper_enum,
              rule="values of 47 .. 3e5 samples (thorough 2e6; distinct noise + offset; ndarray / list / integer array), 1 .. 5000 shift rows, "
-                  "products rows x width laddered over 1e5 .. 1.5e7 (thorough 6e7), shifts up to 3 / 400 / n/3 / n+3 / 2n of any sign "
+                  "products rows x width laddered over 1e5 .. 1.5e7 (thorough 3e7), shifts up to 3 / 400 / n/3 / n+3 / 2n of any sign "
                   "(put) or >= 0 (join), clip in {none,start,end,both,None,omitted}, jtype add/sub/omitted, time shifts r*dt and "
                   "(r+1/2)*dt with dt = 2^-k",
              oracle="reference model over the WHOLE output: gather by index arithmetic (validated against the double loop at import), "
@@ -1258,7 +1299,8 @@ def mid_range_helpers(c, ctx):
         r = r + np.where(rs.rand(nr) < 0.5, 0.5, 0.0)
     times = r * dt
     sig = ctx.lib(eqsig.AccSignal if nr % 2 else eqsig.Signal, arg, dt)
-    out = np.asarray(ctx.lib(ts.join_sig_w_time_shift, sig, times, **kw))
+    targ = [times, [float(t) for t in times], tuple(float(t) for t in times)][(n + nr) % 3]
+    out = np.asarray(ctx.lib(ts.join_sig_w_time_shift, sig, targ, **kw))
     lo_c, hi_c = np.floor(r).astype(np.int64), np.ceil(r).astype(np.int64)
     ctx.check(out.ndim == 2 and out.shape[0] == nr and n + int(lo_c.max()) <= out.shape[1] <= n + int(hi_c.max()),
               "join_sig_w_time_shift(n=%d, %d time shifts): shape %s, expected (%d, %d..%d)" % (
